@@ -220,7 +220,8 @@ pub fn mz_deflate_end_oxide(stream_oxide: &mut StreamOxide<Compressor>) -> MZRes
 pub fn mz_deflate_reset_oxide(stream_oxide: &mut StreamOxide<Compressor>) -> MZResult {
     stream_oxide.total_in = 0;
     stream_oxide.total_out = 0;
-    stream_oxide.adler = 0;
+    // Same value as after `mz_deflate_init2_oxide`: the Adler-32 of the (empty) input consumed so far.
+    stream_oxide.adler = MZ_ADLER32_INIT;
     stream_oxide.next_in = None;
     stream_oxide.next_out = None;
     let state = stream_oxide.state().ok_or(MZError::Stream)?;
